@@ -449,6 +449,9 @@ func usePreludeD(w *lineWriter, m UseMix) {
 		w.add("\tPlainSib struct{ A int }")
 		w.add(")")
 		w.add("")
+		w.add("// DMock is an alias this package itself exports for Mock (not a use of it, and it carries no annotation).")
+		w.add("type DMock = Mock")
+		w.add("")
 		w.add("// GMock is a generic test double carrying the same annotations.")
 		m.ann(w, "", ItMock)
 		w.add("type GMock[V any] struct{ A V }")
@@ -458,6 +461,8 @@ func usePreludeD(w *lineWriter, m UseMix) {
 		w.add("// Mock2 is another one.")
 		m.ann(w, "", ItMock2)
 		w.add("type Mock2 struct{ A int }")
+		w.add("")
+		w.add("type DMock2 = Mock2")
 		w.add("")
 	})
 	tPlain := chunk(func() {
@@ -595,12 +600,14 @@ func RenderUse(s *UseSpec) *UseRendered {
 		q = ""
 	} else if s.Spell == SpRenamedImp {
 		q = "dd."
-	} else if s.Spell == SpDotImport {
+	} else if s.Spell == SpDotImport || s.Spell == SpDeclAliasDot {
 		q = "" // every exported name of d is in the file scope of each importing file
 	}
-	dot := !inD && s.Spell == SpDotImport
+	dot := !inD && (s.Spell == SpDotImport || s.Spell == SpDeclAliasDot)
 	mock, mock2 := q+"Mock", q+"Mock2"
 	switch s.Spell {
+	case SpDeclAlias, SpDeclAliasDot:
+		mock, mock2 = q+"DMock", q+"DMock2"
 	case SpLocalAlias, SpMixedAlias:
 		mock, mock2 = "AMock", "AMock2"
 	case SpThirdAlias:
